@@ -1172,6 +1172,11 @@ class Checker:
         if ev.get("what") == "other-activity":
             self.stats["other_instance_callbacks"] = self.stats.get("other_instance_callbacks", 0) + ev.get("callbacks", 0)
             self.stats["other_instance_steps"] = self.stats.get("other_instance_steps", 0) + 1
+        if ev.get("what") == "odd-state-field":
+            self.stats["odd_state_field_constructions"] = self.stats.get("odd_state_field_constructions", 0) + 1
+            if ev.get("got") != ["built", "built"]:
+                self.rej("C16.definition-check-per-instance", f"a machine of the class with state_field={ev.get('name')!r} (the name of a guard the class provides) "
+                                                              f"and the next ordinary instance: {ev.get('got')}")
         if ev.get("what") == "incomplete-construct":
             self.stats["incomplete_constructions"] = self.stats.get("incomplete_constructions", 0) + (ev.get("expected") == "rejected")
             if ev.get("got") != ev.get("expected"):
